@@ -151,6 +151,15 @@ CHECKS["C09"] = dict(
     note="Trusted: TLC, CPython, hashlib. PKCS#8 version 0 or 1 both count as canonical output.",
     technique="TLC trace validation (C->S) of serialised bytes + keys generated by the TLA+ encoder loaded into the library (S->C)",
     ref="3/C09")
+CHECKS["C10"] = dict(
+    text="ExcTrace.tla states, per entry point, the documented exception classes; every call's outcome (usable object or exception "
+         "class, under a 5 s alarm for termination) over a corpus of ~350k (quick) inputs - all 1-2 byte strings, every truncation / "
+         "substitution / insertion / deletion / length-field replacement of valid SPKI, ECPrivateKey, PKCS#8 (DER and PEM with "
+         "damaged base64 and armour), point strings, raw/DER signatures - through 27 entry points (key loaders, signature decoders, "
+         "verify through each decoder, der readers, ECDH loaders) is aggregated by class and decided by TLC trace validation.",
+    note="Trusted: TLC. Accept/reject correctness of the same inputs is decided by C08/C09/C11/C12; here only class and termination.",
+    technique="TLC trace validation (C->S) of outcome classes over a mutation corpus",
+    ref="3/C10")
 NOT_YET = {}
 
 
